@@ -60,6 +60,9 @@ CLAIMS['C10'] = ('Bounded symbolic model checking of the real Zernike classes: f
 CLAIMS['C18'] = ('Bounded symbolic model checking of MaterialFile: each of the nine dispersion formulas with symbolic coefficients (parsed through the real _parse_file from symbolic tokens) and symbolic wavelength equals the refractiveindex.info formula (squared where it is defined on n^2), '
     'malformed coefficient counts raise, tabulated n/k/nk = clamped linear interpolation of symbolic tables incl. column mapping, scalar = array, abbe(); the name-ranking kernel equals the textbook Levenshtein distance over symbolic characters (|s|<=3); model glass reproduces n_d within 0.02 over the whole glass-map box.',
     'NOT decided: the enumeration of the 2593 catalogue rows and the pandas substring filter/ranking around the kernel (finite concrete data, not a solver question); exponent coefficients of formulas 3/4/5 enumerated from {-2,0,1,2,4}; 1-3 terms; 2-3 table rows')
+CLAIMS['C17'] = ('Bounded symbolic model checking of JonesFresnel (R+T=1 for s and p with symbolic n1, n2, angle below critical; Brewster; normal incidence), the six polarizers (idempotent Hermitian projectors onto their stated state, for arbitrary complex input), '
+    'retarders (unitary, stated retardance, element(theta) = R(theta) element(0) R(-theta)), the diattenuator rotation identity (fails: known finding F8), one uncoated polarised surface step (|E|^2 preserved, E.k = 0) and the angle of incidence; complex arithmetic as pairs of reals, trigonometry axiomatised with angle-sum rules.',
+    'meridional incidence in the quick tier (skew and the unpolarised-mean clause in thorough); quarter/half-wave plates to within 1e-9 because the code carries rounded constants; whole-lens polarised traces are covered only through the per-surface step (induction)')
 NOT_YET = 'check not built yet in this round (work in progress; see DESIGN.md section 6 for the plan)'
 
 props = [json.loads(l) for l in open(os.path.join(ROOT, 'properties.jsonl'))]
